@@ -208,6 +208,16 @@ func FillOperands(t *rapid.T, c *Case) {
 	case "quantize":
 		c.X = gen.Finite(t, ctx, "x")
 		c.QExp = QuantExp(t, ctx, c.X)
+		if gen.Pick(t, 200, "qfargap") == 0 {
+			// operand at the bottom of the exponent range, target above it by more than 100000
+			// (both legal): every digit is dropped, nothing needs to be rejected
+			c.X.Exp = -gen.Limit + int32(rapid.IntRange(0, 8).Draw(t, "qfx"))
+			hi := int(ctx.Emax)
+			if hi > 40 {
+				hi = 40
+			}
+			c.QExp = int32(rapid.IntRange(1, hi).Draw(t, "qft"))
+		}
 	case "rtie", "rtiv", "ceil", "floor":
 		c.X = IntegralOperand(t, ctx)
 	case "reduce":
@@ -320,6 +330,10 @@ func clamp32(e int64) int32 {
 // in [Etiny-2, Emax+2].
 func QuantExp(t *rapid.T, ctx core.Ctx, x core.Dec) int32 {
 	p := int(ctx.P)
+	if ctx.Emax >= 90000 && gen.Pick(t, 3, "qfarabove") == 0 {
+		// both exponents legal, the target more than 100000 above the operand's
+		return int32(rapid.IntRange(1000, 90000).Draw(t, "qfa"))
+	}
 	if gen.Pick(t, 60, "qextreme") == 0 { // the ends of the int32 argument range
 		return []int32{2147483647, -2147483648, 2147483646, -2147483647, 2147383648, -2147383648}[gen.Pick(t, 6, "qextv")]
 	}
@@ -405,8 +419,10 @@ func NearLimit(c Case, ex *ref.Exact) bool {
 		}
 	}
 	if c.Op == "quantize" {
+		// only a target far *below* the operand's exponent needs a power of ten beyond the
+		// package limit; a target far above it merely drops every digit
 		gap := int64(c.QExp) - int64(c.X.Exp)
-		if gap > edge || gap < -edge || int64(c.QExp) > edge || int64(c.QExp) < -edge {
+		if gap < -edge || int64(c.QExp) > edge || int64(c.QExp) < -edge {
 			return true
 		}
 	}
@@ -421,6 +437,17 @@ func NearLimit(c Case, ex *ref.Exact) bool {
 		}
 	}
 	return false
+}
+
+// QuantizeMayReject reports whether Quantize may turn the call away with NaN and
+// InvalidOperation for package-limit reasons: the target exponent itself is at the
+// +/-100000 limits, or it lies so far below the operand's exponent that the rescaling would
+// need a power of ten beyond the limit. A target above the operand's exponent only drops
+// digits and is never a reason.
+func QuantizeMayReject(c Case) bool {
+	const edge = gen.Limit - 2000
+	gap := int64(c.QExp) - int64(c.X.Exp)
+	return gap < -edge || int64(c.QExp) > edge || int64(c.QExp) < -edge
 }
 
 // Reference computes the expected outcome for the operations that have an exact-result
